@@ -251,6 +251,7 @@ fn eval_inner(target: &str, input: &str) -> Option<String> {
         }
         "default_ns" => c10_default_ns_witness(),
         "fixed_doc" => c20_fixed_doc(input),
+        "scope_queries" => c09_scope(input),
         "ns_layout" => bounded::ns_layout(input),
         "char_ref" => bounded::char_ref(input),
         "level_order" => bounded::level_order(input),
@@ -298,6 +299,12 @@ fn inputs(target: &str, large: bool) -> Vec<String> {
         "ns_layout" => bounded::ns_layouts(),
         "char_ref" => bounded::ref_strings(large),
         "level_order" => { let mut v = Vec::new(); for d in 0..3 { for n in 0..12 { v.push(format!("{} {}", d, n)); } } v }
+        "scope_queries" => {
+            let decls = ["", "d1", "d2", "d0", "p1", "p2", "q1", "q2", "d1p1", "p1q1", "q1p1", "p2q1", "d0p1", "d2p1", "p1q2"];
+            let mut v = Vec::new();
+            for a in decls { for b in decls { for c in decls { v.push(format!("{}|{}|{}", a, b, c)); } } }
+            v
+        }
         "fixed_doc" => { let mut v = Vec::new(); for b in 0..4 { for a in 0..4 { v.push(format!("{} {}", b, a)); } } v }
         "default_ns" => vec!["<a xmlns=\"u\"/> + append(new element b in no namespace)".to_string()],
         "xhtml_ns" => vec!["<h:p xmlns:h=\"http://www.w3.org/1999/xhtml\"><h:br/></h:p>".to_string()],
@@ -698,4 +705,62 @@ fn c20_fixed_doc(input: &str) -> Option<String> {
     let show = |tag: &str, i: usize| if i % 2 == 0 { format!("<!--{}{}-->", tag, i) } else { format!("<?{}{}?>", tag, i) };
     let want: String = (0..nb).map(|i| show("b", i)).collect::<String>() + "<e>t</e>" + &(0..na).map(|i| show("a", i)).collect::<String>();
     if got != want { Some(format!("xotify gives {:?}, expected {:?}", got, want)) } else { None }
+}
+
+// (C09) scope queries against nearest-declaration-wins, computed independently from the declarations on the path
+#[allow(dead_code)]
+fn c09_scope(input: &str) -> Option<String> {
+    // input: three declaration sets "da|db|dc" like ns_layout (d=default, p, q followed by 0/1/2)
+    let f: Vec<&str> = input.split('|').collect();
+    if f.len() != 3 { return None; }
+    let mut xot = Xot::new();
+    let uris = ["", "http://u1", "http://u2"];
+    let ns_ids: Vec<_> = uris.iter().map(|u| xot.add_namespace(u)).collect();
+    let empty = xot.empty_prefix();
+    let p = xot.add_prefix("p");
+    let q = xot.add_prefix("q");
+    let mut els = Vec::new();
+    for (i, local) in ["a", "b", "c"].iter().enumerate() {
+        let name = xot.add_name(local);
+        let el = xot.new_element(name);
+        let chars: Vec<char> = f[i].chars().collect();
+        let mut k = 0;
+        while k + 1 < chars.len() {
+            let pre = match chars[k] { 'd' => empty, 'p' => p, 'q' => q, _ => return None };
+            let n = ns_ids[chars[k + 1].to_digit(10)? as usize];
+            if pre != empty && chars[k + 1] == '0' { return None; }
+            xot.namespaces_mut(el).insert(pre, n);
+            k += 2;
+        }
+        if let Some(parent) = els.last() { xot.append(*parent, el).ok()?; }
+        els.push(el);
+    }
+    let xmlp = xot.xml_prefix();
+    let xmlns = xot.xml_namespace();
+    for (depth, node) in els.iter().enumerate() {
+        // reference: walk from the node outwards, first declaration of each prefix wins
+        let mut scope: Vec<(xot::PrefixId, xot::NamespaceId)> = Vec::new();
+        for anc in els[..=depth].iter().rev() {
+            for (pre, ns) in xot.namespaces(*anc).iter() {
+                if !scope.iter().any(|(p2, _)| *p2 == pre) { scope.push((pre, *ns)); }
+            }
+        }
+        if !scope.iter().any(|(p2, _)| *p2 == xmlp) { scope.push((xmlp, xmlns)); }
+        for pre in [empty, p, q, xmlp] {
+            let want = scope.iter().find(|(p2, _)| *p2 == pre).map(|(_, n)| *n).filter(|n| *n != ns_ids[0]);
+            let got = xot.namespace_for_prefix(*node, pre);
+            if got != want { return Some(format!("layout {} node {}: namespace_for_prefix({:?}) = {:?}, nearest-declaration-wins gives {:?}", input, depth, xot.prefix_str(pre), got.map(|n| xot.namespace_str(n).to_string()), want.map(|n| xot.namespace_str(n).to_string()))); }
+            let defined = scope.iter().any(|(p2, _)| *p2 == pre);
+            if xot.is_prefix_defined(*node, pre) != defined { return Some(format!("layout {} node {}: is_prefix_defined({:?}) = {}, expected {}", input, depth, xot.prefix_str(pre), !defined, defined)); }
+        }
+        for ns in [ns_ids[1], ns_ids[2], xmlns] {
+            let got = xot.prefix_for_namespace(*node, ns);
+            let exists = scope.iter().any(|(_, n)| *n == ns);
+            match got {
+                Some(pre) => { if !scope.iter().any(|(p2, n)| *p2 == pre && *n == ns) { return Some(format!("layout {} node {}: prefix_for_namespace({:?}) = {:?}, which is not bound to it in scope", input, depth, xot.namespace_str(ns), xot.prefix_str(pre))); } }
+                None => { if exists { return Some(format!("layout {} node {}: prefix_for_namespace({:?}) = None although a prefix is bound to it in scope", input, depth, xot.namespace_str(ns))); } }
+            }
+        }
+    }
+    None
 }
